@@ -57,6 +57,12 @@ def prop(case, res):
             if r != ('ok', False):
                 res.violation('%s|substitution-%s|%s' % (name, 'accepted' if r[0] == 'ok' else 'crash', 'letter' if a.isalpha() else 'digit'),
                               'c17', case, {'number': x, 'pos': i, 'replacement': b, 'is_valid': [str(t) for t in r]})
+            elif name == 'isbn' and (i + ord(b)) % 3 == 0:
+                # the documented convert=True option must not weaken the check
+                r2 = core.out(m.validate, y, convert=True)
+                res.evals += 1
+                if r2[0] == 'ok':
+                    res.violation('isbn|substitution-accepted|convert=True', 'c17', case, {'number': x, 'pos': i, 'replacement': b, 'validate': r2[1]})
     if name in SWAP and swap_scope(name, x):
         for i in range(len(x) - 1):
             a, b = x[i], x[i + 1]
